@@ -2,7 +2,7 @@
 //!
 //! Observed: `duke::read_class_multi` with mask-configurable tree visitors (duke::verif::Masked), with `()`, with a
 //! harness-defined SimpleClassVisitor, with `Vec<ClassFile>` over concatenated classes; `ClassFile::accept` (replay).
-//! Oracle: R-visitor of DESIGN.md 9a (src/oracle.rs): F = projection of the full read, E = F restricted to interest(K),
+//! Oracle: R-visitor of DESIGN.md 9a (src/oracle.rs): F = projection of the full read, E = F restricted to interest(K) (every member by its own mask),
 //! computed from F and K alone; stream position = byte length of the class as emitted / as parsed by the independent parser.
 mod dense;
 mod mask;
@@ -13,14 +13,15 @@ use cf::{emit, features, gen, model::*, parse, project};
 use common::{par::*, report::{finish, Meta}, *};
 use duke::tree::class::ClassFile;
 use duke::verif::{Masked, Offer};
-use mask::{bit, bit_name, Level, Pat, BITS, CATEGORIES, K, NBITS};
-use oracle::{judge, ClassHdr, MemberHdr, Obs, Offered, Problem};
+use mask::{bit, bit_name, Level, Pat, Shape, BITS, CATEGORIES, FIRST_PER, K, MEMBER_LEVELS, NBITS, PER_PATS};
+use oracle::{full_obs, judge, ClassHdr, MemberHdr, Obs, Offered, Problem};
 use std::io::{Cursor, Read, Seek, SeekFrom};
 
 // ------------------------------------------------------------------------------------------------ subjects
 
 /// one class file together with everything the oracle needs to know about it
-struct Subject { name: String, bytes: Vec<u8>, model: Class, tree: ClassFile, full: Class, feats: std::collections::BTreeSet<String> }
+struct Subject { name: String, bytes: Vec<u8>, model: Class, tree: ClassFile, full: Class, feats: std::collections::BTreeSet<String>, /// member counts / which methods have Code, for drawing per-member masks
+    shape: Shape }
 
 fn template(msg: &str) -> String {
     let mut out = String::new(); let mut in_q = false; let mut in_num = false;
@@ -38,7 +39,8 @@ fn subject(name: String, bytes: Vec<u8>, model: Class) -> Result<Subject, String
     let tree = match guard(|| duke::read_class(&mut Cursor::new(&bytes[..]))) { Ok(Ok(t)) => t, Ok(Err(e)) => return Err(format!("full read fails: {}", template(&format!("{e:#}")))), Err(p) => return Err(format!("full read panics: {}", p.site())) };
     let full = project::project(&tree);
     let feats = features::features(&model);
-    Ok(Subject { name, bytes, model, tree, full, feats })
+    let shape = Shape { fields: model.fields.len(), methods: model.methods.len(), records: model.record.as_ref().map(|r| r.len()).unwrap_or(0), has_code: model.methods.iter().map(|m| m.code.is_some()).collect() };
+    Ok(Subject { name, bytes, model, tree, full, feats, shape })
 }
 
 // ------------------------------------------------------------------------------------------------ stream wrapper
@@ -98,10 +100,12 @@ fn simple_k(k: &K) -> K {
     let mut s = k.clone();
     for i in 0..NBITS { match BITS[i].0 { Level::Class => s.bits[i] = BITS[i].1 == "fields" || BITS[i].1 == "methods", Level::Field => s.bits[i] = true, Level::Record => s.bits[i] = false, _ => {} } }
     s.decline_class = false; s.records = Pat::None;
+    // fields go into duke's full `Field` builder, there are no record components: only methods and Code have masks of their own
+    s.per_field.clear(); s.per_record.clear();
     s
 }
 fn simple_cfg(k: &K, s: &Subject) -> simple::SimpleCfg {
-    simple::SimpleCfg { decline_fields: k.fields.expand(s.full.fields.len()), decline_methods: k.methods.expand(s.full.methods.len()), decline_code: k.code.expand(s.full.methods.len()), method: k.method_interests(), code: k.code_mask() }
+    simple::SimpleCfg { decline_fields: k.fields.expand(s.full.fields.len()), decline_methods: k.methods.expand(s.full.methods.len()), decline_code: k.code.expand(s.full.methods.len()), method: k.method_interests(), code: k.code_mask(), method_overrides: k.method_overrides(), code_overrides: k.code_overrides() }
 }
 
 struct ReadResult { outcome: Result<Option<Obs>, String>, pos_cursor: u64, pos_tracked: u64, max_touched: u64 }
@@ -164,14 +168,32 @@ fn problems_of_replay(s: &Subject, k: &K) -> Vec<Problem> {
 
 /// The smallest set of deviations from the full-interest / accept-everything visitor under which a problem with the
 /// same key still occurs (greedy, category by category; then bit by bit inside a single interest category).
-fn trigger(k: &K, still: &dyn Fn(&K) -> bool) -> (String, K) {
+fn trigger(k: &K, shape: &Shape, still: &dyn Fn(&K) -> bool) -> (String, K) {
     let mut cur = k.clone();
-    for c in 0..CATEGORIES.len() { if cur.has_category(c) { let t = cur.without_category(c); if still(&t) { cur = t; } } }
+    // a per-member category is removed by giving every member one and the same mask (the common one, or the one of some member):
+    // a problem that persists then does not need per-member answers (K::reductions)
+    for c in 0..CATEGORIES.len() { if cur.has_category(c) { if let Some(t) = cur.reductions(c).into_iter().find(|t| still(t)) { cur = t; } } }
+    // a per-member category that stays: drop the masks of the single members that are not needed (shows in the minimal mask only)
+    for (j, level) in MEMBER_LEVELS.iter().enumerate() {
+        if !cur.has_category(FIRST_PER + j) { continue; }
+        for o in 0..cur.per(*level).len() { if cur.per(*level)[o].is_some() { let t = cur.without_member_mask(*level, o); if still(&t) { cur = t; } } }
+    }
+    // Which member's answer a faulty reader reuses shifts with the accept / decline choices, so the greedy result may keep declines (or the
+    // masks of another level) that only move the fault onto a member where it shows. If one of the plainest per-member visitors of that level
+    // (K::probe: full interest, everything accepted) has a problem of the same kind on this class, the per-member answers alone are the trigger.
+    if (FIRST_PER..CATEGORIES.len()).any(|c| cur.has_category(c)) && (0..CATEGORIES.len()).filter(|c| cur.has_category(*c) && !(*c >= 1 && *c < 5 && cur.has_category(FIRST_PER + *c - 1))).count() > 1 {
+        'probes: for (j, level) in MEMBER_LEVELS.iter().enumerate() {
+            if !cur.has_category(FIRST_PER + j) { continue; }
+            for kind in 0..3 { let t = K::probe(*level, kind, shape); if still(&t) { cur = t; break 'probes; } }
+        }
+    }
     let cats: Vec<usize> = (0..CATEGORIES.len()).filter(|c| cur.has_category(*c)).collect();
     if cats.is_empty() { return ("none: also with the full-interest, accept-everything visitor".into(), cur); }
     let mut names: Vec<String> = vec![];
     for c in &cats {
         if *c < 5 {
+            // which flags are off in the common mask is part of the per-member masks of that level when those are needed: named once, below
+            if *c >= 1 && cats.contains(&(FIRST_PER + *c - 1)) { continue; }
             let level = [Level::Class, Level::Field, Level::Method, Level::Code, Level::Record][*c];
             for i in 0..NBITS { if BITS[i].0 == level && !cur.bits[i] { let mut t = cur.clone(); t.bits[i] = true; if still(&t) { cur = t; } } }
             let off: Vec<usize> = (0..NBITS).filter(|i| BITS[*i].0 == level && !cur.bits[*i]).collect();
@@ -187,7 +209,8 @@ fn fatal(key: &str) -> bool { key.starts_with("panic") || key.starts_with("the r
 
 /// Reports the problems of one evaluation. Signatures:
 ///  * the problem also occurs with the full-interest / accept-everything visitor, or the mode is replay: `C17 <mode> (<visitor>): <key>` (fact path / panic site included)
-///  * a read that goes wrong only under some deviation (the trigger, found by minimising the mask): `C17 read (<visitor>) [trigger: ..]: <coarse observation>`.
+///  * a read that goes wrong only under some deviation (the trigger, found by minimising the mask), or a replay that goes wrong only when the
+///    members of a list answer `interests()` differently: `C17 <mode> (<visitor>) [trigger: ..]: <coarse observation>`.
 ///    After a skip that went wrong the parse fails, panics or delivers garbage wherever it happens to stop, so error text / fact path are detail, not signature.
 fn report(rep: &mut Report, mode: &str, v: &Visitor, s: &Subject, problems: Vec<Problem>, rerun: &dyn Fn(&K) -> Vec<Problem>, extra: Value) {
     if problems.is_empty() { return; }
@@ -197,16 +220,19 @@ fn report(rep: &mut Report, mode: &str, v: &Visitor, s: &Subject, problems: Vec<
         // an error or a panic ends the read: the facts of that read are not there to be judged
         if let Some(f) = mine.iter().find(|p| fatal(&p.key)).copied() { mine = vec![f]; }
         let (trig, min_k) = match v.k() {
-            Some(k) => { let (t, mk) = trigger(k, &|t: &K| rerun(t).iter().any(|p| coarse(&p.key) == class)); (Some(t), Some(mk)) }
+            Some(k) => { let (t, mk) = trigger(k, &s.shape, &|t: &K| rerun(t).iter().any(|p| coarse(&p.key) == class)); (Some(t), Some(mk)) }
             None => (None, None),
         };
         let detail = |p: &Problem| json!({"class": s.name, "input_hex": hex(&s.bytes), "mask": v.k().map(|k| k.to_json()), "minimal_mask": min_k.as_ref().map(|k| k.to_json()), "observed": p.key, "problem": p.detail, "context": extra});
         let untriggered = trig.as_ref().is_none_or(|t| t.starts_with("none"));
-        if untriggered || mode == "replay" {
+        // a replay problem keeps its fact path, except when it needs per-member answers: which facts go wrong then depends on the flags the
+        // OTHER member happened to have, so the fact path is detail there as well
+        let per_member = trig.as_ref().is_some_and(|t| t.contains("per-member"));
+        if untriggered || (mode == "replay" && !per_member) {
             let t = match &trig { Some(t) if !t.starts_with("none") => format!(" [trigger: {t}]"), _ => String::new() };
             for p in mine.iter().take(4) { rep.violation(format!("C17 {mode} ({}): {}{}", v.name(), p.key, t), detail(p)); }
         } else {
-            let what = if class == "cursor" { mine[0].key.clone() } else { "the read is disturbed: it fails, panics, or delivers facts that differ from the full read".to_string() };
+            let what = if class == "cursor" { mine[0].key.clone() } else if mode == "replay" { "the replay fails, panics, or delivers facts that differ from the full read".to_string() } else { "the read is disturbed: it fails, panics, or delivers facts that differ from the full read".to_string() };
             rep.violation(format!("C17 {mode} ({}) [trigger: {}]: {}", v.name(), trig.unwrap_or_default(), what), detail(mine[0]));
         }
     }
@@ -215,51 +241,86 @@ fn report(rep: &mut Report, mode: &str, v: &Visitor, s: &Subject, problems: Vec<
 // ------------------------------------------------------------------------------------------------ coverage accounting
 
 struct Cov { on: [u64; NBITS], off: [u64; NBITS] }
-fn any_code<'a>(m: &'a Class, k: &K, nm: usize) -> impl Iterator<Item = &'a Code> + 'a {
-    let dm = k.methods.expand(nm); let dc = k.code.expand(nm);
-    m.methods.iter().enumerate().filter(move |(i, _)| !dm[*i] && !dc[*i]).filter_map(|(_, x)| x.code.as_ref())
-}
-/// is an item governed by interest bit `i` present where a visitor with mask `k` gets to see it (accepted class / member)?
-fn present(m: &Class, k: &K, i: usize) -> bool {
-    if k.decline_class { return false; }
-    let (level, name) = BITS[i];
-    let df = k.fields.expand(m.fields.len()); let dm = k.methods.expand(m.methods.len());
-    let fields = || m.fields.iter().enumerate().filter(|(j, _)| !df[*j]).map(|(_, f)| f);
-    let methods = || m.methods.iter().enumerate().filter(|(j, _)| !dm[*j]).map(|(_, f)| f);
-    let nrec = m.record.as_ref().map(|r| r.len()).unwrap_or(0); let dr = k.records.expand(nrec);
-    let recs = || m.record.iter().flatten().enumerate().filter(|(j, _)| !dr[*j] && k.on(Level::Class, "record")).map(|(_, r)| r);
-    let code_on = k.on(Level::Method, "code");
-    match (level, name) {
-        (Level::Class, "inner_classes") => m.inner_classes.is_some(), (Level::Class, "enclosing_method") => m.enclosing_method.is_some(), (Level::Class, "signature") => m.signature.is_some(),
-        (Level::Class, "source_file") => m.source_file.is_some(), (Level::Class, "source_debug_extension") => m.source_debug_extension.is_some(),
-        (Level::Class, "runtime_visible_annotations") => !m.vis_annotations.is_empty(), (Level::Class, "runtime_invisible_annotations") => !m.invis_annotations.is_empty(),
-        (Level::Class, "runtime_visible_type_annotations") => !m.vis_type_annotations.is_empty(), (Level::Class, "runtime_invisible_type_annotations") => !m.invis_type_annotations.is_empty(),
-        (Level::Class, "module") => m.module.is_some(), (Level::Class, "module_packages") => m.module_packages.is_some(), (Level::Class, "module_main_class") => m.module_main_class.is_some(),
-        (Level::Class, "nest_host") => m.nest_host.is_some(), (Level::Class, "nest_members") => m.nest_members.is_some(), (Level::Class, "permitted_subclasses") => m.permitted_subclasses.is_some(),
-        (Level::Class, "record") => nrec > 0, (Level::Class, "unknown_attributes") => !m.unknown.is_empty(), (Level::Class, "fields") => !m.fields.is_empty(), (Level::Class, "methods") => !m.methods.is_empty(),
-        (Level::Field, "constant_value") => fields().any(|f| f.constant_value.is_some()), (Level::Field, "signature") => fields().any(|f| f.signature.is_some()),
-        (Level::Field, "runtime_visible_annotations") => fields().any(|f| !f.vis_annotations.is_empty()), (Level::Field, "runtime_invisible_annotations") => fields().any(|f| !f.invis_annotations.is_empty()),
-        (Level::Field, "runtime_visible_type_annotations") => fields().any(|f| !f.vis_type_annotations.is_empty()), (Level::Field, "runtime_invisible_type_annotations") => fields().any(|f| !f.invis_type_annotations.is_empty()),
-        (Level::Field, "unknown_attributes") => fields().any(|f| !f.unknown.is_empty()),
-        (Level::Method, "code") => methods().any(|f| f.code.is_some()), (Level::Method, "exceptions") => methods().any(|f| f.exceptions.is_some()), (Level::Method, "signature") => methods().any(|f| f.signature.is_some()),
-        (Level::Method, "runtime_visible_annotations") => methods().any(|f| !f.vis_annotations.is_empty()), (Level::Method, "runtime_invisible_annotations") => methods().any(|f| !f.invis_annotations.is_empty()),
-        (Level::Method, "runtime_visible_type_annotations") => methods().any(|f| !f.vis_type_annotations.is_empty()), (Level::Method, "runtime_invisible_type_annotations") => methods().any(|f| !f.invis_type_annotations.is_empty()),
-        (Level::Method, "runtime_visible_parameter_annotations") => methods().any(|f| f.vis_param_annotations.is_some()), (Level::Method, "runtime_invisible_parameter_annotations") => methods().any(|f| f.invis_param_annotations.is_some()),
-        (Level::Method, "annotation_default") => methods().any(|f| f.annotation_default.is_some()), (Level::Method, "method_parameters") => methods().any(|f| f.method_parameters.is_some()),
-        (Level::Method, "unknown_attributes") => methods().any(|f| !f.unknown.is_empty()),
-        (Level::Code, n) => code_on && any_code(m, k, m.methods.len()).any(|c| match n {
-            "stack_map_table" => c.frames.is_some(), "line_number_table" => c.line_numbers.is_some(), "local_variable_table" => c.lvt.is_some(), "local_variable_type_table" => c.lvtt.is_some(),
-            "runtime_visible_type_annotations" => !c.vis_type_annotations.is_empty(), "runtime_invisible_type_annotations" => !c.invis_type_annotations.is_empty(), _ => !c.unknown.is_empty() }),
-        (Level::Record, "signature") => recs().any(|r| r.signature.is_some()),
-        (Level::Record, "runtime_visible_annotations") => recs().any(|r| !r.vis_annotations.is_empty()), (Level::Record, "runtime_invisible_annotations") => recs().any(|r| !r.invis_annotations.is_empty()),
-        (Level::Record, "runtime_visible_type_annotations") => recs().any(|r| !r.vis_type_annotations.is_empty()), (Level::Record, "runtime_invisible_type_annotations") => recs().any(|r| !r.invis_type_annotations.is_empty()),
-        (Level::Record, _) => recs().any(|r| !r.unknown.is_empty()),
+fn class_has(m: &Class, n: &str) -> bool {
+    match n {
+        "inner_classes" => m.inner_classes.is_some(), "enclosing_method" => m.enclosing_method.is_some(), "signature" => m.signature.is_some(),
+        "source_file" => m.source_file.is_some(), "source_debug_extension" => m.source_debug_extension.is_some(),
+        "runtime_visible_annotations" => !m.vis_annotations.is_empty(), "runtime_invisible_annotations" => !m.invis_annotations.is_empty(),
+        "runtime_visible_type_annotations" => !m.vis_type_annotations.is_empty(), "runtime_invisible_type_annotations" => !m.invis_type_annotations.is_empty(),
+        "module" => m.module.is_some(), "module_packages" => m.module_packages.is_some(), "module_main_class" => m.module_main_class.is_some(),
+        "nest_host" => m.nest_host.is_some(), "nest_members" => m.nest_members.is_some(), "permitted_subclasses" => m.permitted_subclasses.is_some(),
+        "record" => m.record.as_ref().is_some_and(|r| !r.is_empty()), "unknown_attributes" => !m.unknown.is_empty(), "fields" => !m.fields.is_empty(), "methods" => !m.methods.is_empty(),
         _ => false,
     }
 }
+fn field_has(f: &Field, n: &str) -> bool {
+    match n { "constant_value" => f.constant_value.is_some(), "signature" => f.signature.is_some(), "runtime_visible_annotations" => !f.vis_annotations.is_empty(), "runtime_invisible_annotations" => !f.invis_annotations.is_empty(),
+        "runtime_visible_type_annotations" => !f.vis_type_annotations.is_empty(), "runtime_invisible_type_annotations" => !f.invis_type_annotations.is_empty(), "unknown_attributes" => !f.unknown.is_empty(), _ => false }
+}
+fn method_has(f: &Method, n: &str) -> bool {
+    match n { "code" => f.code.is_some(), "exceptions" => f.exceptions.is_some(), "signature" => f.signature.is_some(), "runtime_visible_annotations" => !f.vis_annotations.is_empty(), "runtime_invisible_annotations" => !f.invis_annotations.is_empty(),
+        "runtime_visible_type_annotations" => !f.vis_type_annotations.is_empty(), "runtime_invisible_type_annotations" => !f.invis_type_annotations.is_empty(),
+        "runtime_visible_parameter_annotations" => f.vis_param_annotations.is_some(), "runtime_invisible_parameter_annotations" => f.invis_param_annotations.is_some(),
+        "annotation_default" => f.annotation_default.is_some(), "method_parameters" => f.method_parameters.is_some(), "unknown_attributes" => !f.unknown.is_empty(), _ => false }
+}
+fn code_has(c: &Code, n: &str) -> bool {
+    match n { "stack_map_table" => c.frames.is_some(), "line_number_table" => c.line_numbers.is_some(), "local_variable_table" => c.lvt.is_some(), "local_variable_type_table" => c.lvtt.is_some(),
+        "runtime_visible_type_annotations" => !c.vis_type_annotations.is_empty(), "runtime_invisible_type_annotations" => !c.invis_type_annotations.is_empty(), "unknown_attributes" => !c.unknown.is_empty(), _ => false }
+}
+fn rec_has(r: &RecordComponent, n: &str) -> bool {
+    match n { "signature" => r.signature.is_some(), "runtime_visible_annotations" => !r.vis_annotations.is_empty(), "runtime_invisible_annotations" => !r.invis_annotations.is_empty(),
+        "runtime_visible_type_annotations" => !r.vis_type_annotations.is_empty(), "runtime_invisible_type_annotations" => !r.invis_type_annotations.is_empty(), "unknown_attributes" => !r.unknown.is_empty(), _ => false }
+}
+/// is an item governed by interest bit `i` present in member `j` of its level?
+fn member_has(m: &Class, j: usize, i: usize) -> bool {
+    let (level, name) = BITS[i];
+    match level {
+        Level::Field => m.fields.get(j).is_some_and(|f| field_has(f, name)), Level::Method => m.methods.get(j).is_some_and(|f| method_has(f, name)),
+        Level::Code => m.methods.get(j).and_then(|f| f.code.as_ref()).is_some_and(|c| code_has(c, name)),
+        Level::Record => m.record.as_ref().and_then(|r| r.get(j)).is_some_and(|r| rec_has(r, name)), Level::Class => false,
+    }
+}
+/// Is an item governed by interest bit `i` present where a visitor with mask `k` gets to see it (accepted class / member; for the
+/// code flags a Code that is read), (a) at a place that answers the flag ON, (b) at a place that answers it OFF? Per member: its own mask.
+fn present(m: &Class, shape: &Shape, k: &K, i: usize) -> (bool, bool) {
+    if k.decline_class { return (false, false); }
+    let (level, name) = BITS[i];
+    if level == Level::Class { let has = class_has(m, name); return (has && k.bits[i], has && !k.bits[i]); }
+    let reach = k.reach(level, shape);
+    let (mut on, mut off) = (false, false);
+    for j in 0..reach.len() { if reach[j] && member_has(m, j, i) { if k.bit_at(j, i) { on = true; } else { off = true; } } }
+    (on, off)
+}
+/// per-member masks: what was exercised. Counted for a level only when >= 2 members get to it (accepted; Code: read) and the list is of interest.
+fn pm_account(rep: &mut Report, m: &Class, shape: &Shape, k: &K, who: &str) {
+    for level in MEMBER_LEVELS {
+        if k.per(level).iter().all(|o| o.is_none()) { continue; }
+        let list_on = match level { Level::Field => k.on(Level::Class, "fields"), Level::Record => k.on(Level::Class, "record"), _ => k.on(Level::Class, "methods") };
+        if !list_on { continue; }
+        let reach = k.reach(level, shape);
+        let r: Vec<usize> = (0..reach.len()).filter(|j| reach[*j]).collect();
+        if r.len() < 2 { continue; }
+        let name = level.name();
+        if r[1..].iter().any(|b| k.differ_at(level, r[0], *b)) { rep.count(&format!("pm.{who}.{name}.masks_differ")); }
+        // the deciding item: member b has an item, declares interest in it, and member a (earlier) declared none in that kind
+        let decides = |a: usize, b: usize| (0..NBITS).any(|i| BITS[i].0 == level && !k.bit_at(a, i) && k.bit_at(b, i) && member_has(m, b, i));
+        let vs_first = r[1..].iter().any(|b| decides(r[0], *b));
+        let vs_prev = r.windows(2).any(|w| decides(w[0], w[1]));
+        if vs_first { rep.count(&format!("pm.{who}.{name}.later_wants_more_than_first")); }
+        if vs_prev { rep.count(&format!("pm.{who}.{name}.wants_more_than_previous")); }
+        let first_declined = match level { Level::Field => k.fields.expand(shape.fields), Level::Record => k.records.expand(shape.records), _ => k.methods.expand(shape.methods) }.first().copied().unwrap_or(false);
+        if first_declined && (vs_first || vs_prev) { rep.count(&format!("pm.{who}.{name}.first_declined_later_differ")); }
+        if level == Level::Code || level == Level::Method {
+            let refused_first = !first_declined && k.code.expand(shape.methods).first().copied().unwrap_or(false) && shape.has_code.first().copied().unwrap_or(false) && k.on_at(Level::Method, 0, "code");
+            if refused_first && level == Level::Code && (vs_first || vs_prev) { rep.count(&format!("pm.{who}.code.first_code_refused_later_differ")); }
+            if refused_first && level == Level::Method && (vs_first || vs_prev) { rep.count(&format!("pm.{who}.method.first_code_refused_later_differ")); }
+        }
+    }
+}
 fn account(cov: &mut Cov, rep: &mut Report, s: &Subject, k: &K, who: &str) {
-    for i in 0..NBITS { if present(&s.model, k, i) { if k.bits[i] { cov.on[i] += 1; } else { cov.off[i] += 1; } } }
+    for i in 0..NBITS { let (on, off) = present(&s.model, &s.shape, k, i); if on { cov.on[i] += 1; } if off { cov.off[i] += 1; } }
     if k.decline_class { rep.count(&format!("decline.{who}.class")); return; }
+    if k.has_per_member() { rep.count(&format!("pm.{who}.masks")); for (level, pat) in &k.drawn { if k.has_category(FIRST_PER + MEMBER_LEVELS.iter().position(|l| l == level).unwrap_or(0)) { rep.count(&format!("pm.{who}.pattern.{}", pat.name())); } } pm_account(rep, &s.model, &s.shape, k, who); }
     let nrec = s.model.record.as_ref().map(|r| r.len()).unwrap_or(0);
     for (kind, pat, n) in [("field", &k.fields, s.model.fields.len()), ("method", &k.methods, s.model.methods.len()), ("record_component", &k.records, nrec), ("code", &k.code, s.model.methods.len())] {
         if kind == "record_component" && !k.on(Level::Class, "record") { continue; }
@@ -274,8 +335,37 @@ fn flush(cov: &Cov, rep: &mut Report) { for i in 0..NBITS { if cov.on[i] > 0 { r
 
 // ------------------------------------------------------------------------------------------------ per-class evaluation
 
-/// the masks tried on case `i`: all, none, single flags off / on in rotation, decline patterns in rotation, random ones
-fn mask_plan(rng: &mut Rng, i: u64, singles: usize, declines: usize, randoms: usize) -> Vec<K> {
+/// Masks under which the members of one class get DIFFERENT answers from `interests()`, in rotation over the case index:
+/// pattern (PER_PATS) x levels (fields / methods / Code / record components / all four / methods + Code) x accept / decline choices
+/// (none, every decline pattern on the lists in question, `visit_code -> None` for the first method: 1, 7 and 2 of 10), on top of the all-interest or a random mask.
+fn pm_masks(rng: &mut Rng, i: u64, count: usize, shape: &Shape, pats: &[Pat]) -> Vec<K> {
+    let mut v = vec![];
+    for j in 0..count {
+        let x = (i as usize) * count + j;
+        let pat = PER_PATS[x % PER_PATS.len()];
+        let levels: &[Level] = match (x / PER_PATS.len()) % 6 { 0 => &[Level::Field], 1 => &[Level::Method], 2 => &[Level::Code], 3 => &[Level::Record], 4 => &MEMBER_LEVELS, _ => &[Level::Method, Level::Code] };
+        let mut k = if x % 3 == 0 { K::random(rng) } else { K::all() };
+        k.decline_class = false;
+        // the lists and Code must be reached for the member masks to matter
+        for n in ["fields", "methods", "record"] { k.bits[bit(Level::Class, n)] = true; }
+        if x % 5 != 0 { k.bits[bit(Level::Method, "code")] = true; }
+        let d = (x + x / 48) % (pats.len() + 3);
+        if d == pats.len() + 2 || d == 1 { k.code = Pat::First; }
+        else if d >= 2 {
+            let p = pats[d - 2].clone();
+            for level in levels { match level { Level::Field => k.fields = p.clone(), Level::Method => k.methods = p.clone(), Level::Record => k.records = p.clone(), _ => { if levels.len() == 1 || x % 2 == 0 { k.code = p.clone(); } } } }
+        }
+        // methods before Code: which Code attributes are read depends on the `code` flag of each method
+        for level in levels { k.set_per(rng, *level, pat, shape); }
+        v.push(k);
+    }
+    v
+}
+
+/// the masks tried on case `i`: all, none, single flags off / on in rotation, decline patterns in rotation, random ones; about one
+/// third of them with per-member masks (every second decline / random mask gets them on top, plus `sizes.3` masks of `pm_masks`)
+fn mask_plan(rng: &mut Rng, i: u64, sizes: (usize, usize, usize, usize), shape: &Shape) -> Vec<K> {
+    let (singles, declines, randoms, per_member) = sizes;
     let mut v = vec![K::all(), K::none()];
     for j in 0..singles { let b = ((i as usize) * singles + j) % NBITS; let mut k = K::all(); k.bits[b] = false; v.push(k); let b2 = ((i as usize) * singles + j + 17) % NBITS; let mut k = K::none(); k.bits[b2] = true;
         // a flag below a member needs the member (and for code flags the Code) to be reached
@@ -287,20 +377,22 @@ fn mask_plan(rng: &mut Rng, i: u64, singles: usize, declines: usize, randoms: us
         let p = pats[x % pats.len()].clone();
         let mut k = if (x / pats.len()) % 2 == 0 { K::all() } else { K::random(rng) };
         match (x / pats.len()) % 4 { 0 => k.fields = p, 1 => k.methods = p, 2 => { k.records = p; k.bits[bit(Level::Class, "record")] = true; } _ => { k.fields = p.clone(); k.methods = p; } }
+        if j % 2 == 1 { k.overlay_per(rng, shape); }
         v.push(k);
     }
-    for _ in 0..randoms { v.push(K::random(rng)); }
+    for j in 0..randoms { let mut k = K::random(rng); if j % 2 == 1 { k.overlay_per(rng, shape); } v.push(k); }
+    v.extend(pm_masks(rng, i, per_member, shape, &pats));
     // declining a Code attribute (visit_code -> None) and declining the class: a few per case
     { let mut k = K::all(); k.code = pats[(i as usize) % pats.len()].clone(); v.push(k); }
-    if i % 4 == 0 { let mut k = K::random(rng); k.code = Pat::random(rng); k.bits[bit(Level::Method, "code")] = true; v.push(k); }
+    if i % 4 == 0 { let mut k = K::random(rng); k.code = Pat::random(rng); k.bits[bit(Level::Method, "code")] = true; if i % 8 == 0 { let pat = *rng.pick(&PER_PATS); if rng.bool() { k.set_per(rng, Level::Method, pat, shape); } k.set_per(rng, Level::Code, pat, shape); } v.push(k); }
     { let mut k = if i % 2 == 0 { K::all() } else { K::random(rng) }; k.decline_class = true; v.push(k); }
     v
 }
 
-fn evaluate_class(rep: &mut Report, rng: &mut Rng, s: &Subject, case: u64, sizes: (usize, usize, usize), workload: &str) {
+fn evaluate_class(rep: &mut Report, rng: &mut Rng, s: &Subject, case: u64, sizes: (usize, usize, usize, usize), workload: &str) {
     let end = s.bytes.len() as u64;
     let mut cov = Cov { on: [0; NBITS], off: [0; NBITS] };
-    let plan = mask_plan(rng, case, sizes.0, sizes.1, sizes.2);
+    let plan = mask_plan(rng, case, sizes, &s.shape);
     let mut partial = false;
     for k in &plan {
         // ---- read with the masked tree visitor
@@ -310,7 +402,7 @@ fn evaluate_class(rep: &mut Report, rng: &mut Rng, s: &Subject, case: u64, sizes
         if probs.is_empty() { rep.count("reads.masked.ok"); }
         report(rep, "read", &v, s, probs, &|t: &K| problems_of_read(&s.bytes, 0, end, &Visitor::Masked(t.clone()), s), json!({"workload": workload}));
         account(&mut cov, rep, s, k, "read");
-        if k.bits.iter().any(|b| !*b) || k.fields != Pat::None || k.methods != Pat::None || k.records != Pat::None || k.decline_class { partial = true; }
+        if k.bits.iter().any(|b| !*b) || k.fields != Pat::None || k.methods != Pat::None || k.records != Pat::None || k.decline_class || k.has_per_member() { partial = true; }
         // ---- replay of the full tree into the same kind of visitor
         rep.eval(); rep.count("replays.masked");
         let probs = problems_of_replay(s, k);
@@ -325,6 +417,14 @@ fn evaluate_class(rep: &mut Report, rng: &mut Rng, s: &Subject, case: u64, sizes
     for j in 0..2 {
         let mut k = if j == 0 { K::all() } else { K::random(rng) };
         k.fields = Pat::random(rng); k.methods = Pat::random(rng); if rng.chance(1, 6) { k.code = Pat::random(rng); }
+        // the harness-defined method / Code visitors answer per method as well: about every third probe
+        if rng.chance(1, 3) {
+            let pat = PER_PATS[(case as usize * 2 + j) % PER_PATS.len()];
+            k.bits[bit(Level::Method, "code")] = true;
+            let which = rng.below(3);
+            if which != 1 { k.set_per(rng, Level::Method, pat, &s.shape); }
+            if which != 0 { k.set_per(rng, Level::Code, pat, &s.shape); }
+        }
         let v = Visitor::Simple(k.clone());
         rep.eval(); rep.count("reads.simple"); rep.count("position.checked");
         let p = problems_of_read(&s.bytes, 0, end, &v, s);
@@ -437,7 +537,7 @@ fn miri_slice(seed: u64, cases: usize, max_s: u64) -> i32 {
         if i % 8 == 0 {
             match slice_subject(&mut rng, i, true) {
                 Err(_) => skipped += 1,
-                Ok(s) => { classes += 1; bytes_in += s.bytes.len(); evaluate_class(&mut rep, &mut rng, &s, i + 1, (0, 0, 0), "miri"); }
+                Ok(s) => { classes += 1; bytes_in += s.bytes.len(); evaluate_class(&mut rep, &mut rng, &s, i + 1, (0, 0, 0, 0), "miri"); }
             }
         } else if i % 8 != 4 {
             match slice_subject(&mut rng, i, i % 2 == 1) {
@@ -445,8 +545,11 @@ fn miri_slice(seed: u64, cases: usize, max_s: u64) -> i32 {
                 Ok(s) => {
                     classes += 1; bytes_in += s.bytes.len();
                     let end = s.bytes.len() as u64;
-                    let plan = mask_plan(&mut rng, i, 0, 2, 2);
-                    let k = plan[2 + (i as usize) % 4].clone(); // plan[0], plan[1] = all, none (case 0 has them); then 2 decline patterns, 2 random masks
+                    let plan = mask_plan(&mut rng, i, (0, 2, 2, 1), &s.shape);
+                    // plan[0], plan[1] = all, none (case 0 has them); then 2 decline patterns (the second with per-member masks on top), 2 random masks (likewise),
+                    // 1 mask of `pm_masks`. The classes of the even cases have two fields / methods: they get the per-member ones.
+                    let k = plan[match i % 8 { 1 => 2, 3 => 4, 5 => 5, 7 => 3, 2 => 6, _ => if i % 16 == 6 { 5 } else { 6 } }].clone();
+                    if k.has_per_member() { rep.count("masks.per_member"); }
                     let v = Visitor::Masked(k.clone());
                     rep.eval(); rep.count("reads.masked");
                     let probs = problems_of_read(&s.bytes, 0, end, &v, &s);
@@ -459,14 +562,14 @@ fn miri_slice(seed: u64, cases: usize, max_s: u64) -> i32 {
                 }
             }
         } else {
-            let subjects: Vec<Subject> = (0..2).filter_map(|j| slice_subject(&mut rng, i * 2 + j, true).ok()).collect();
+            let subjects: Vec<Subject> = (0..2).filter_map(|j| slice_subject(&mut rng, i * 2 + j, !(i % 16 == 4 && j == 1)).ok()).collect();
             if subjects.len() == 2 {
                 let mut stream = vec![]; let mut bounds = vec![];
                 for s in &subjects { let a = stream.len() as u64; stream.extend_from_slice(&s.bytes); bounds.push((a, stream.len() as u64)); }
                 classes += 2; bytes_in += stream.len();
                 // a masked read of the second class where it sits in the stream
                 let (s, (a, b)) = (&subjects[1], bounds[1]);
-                let v = Visitor::Masked(K::random(&mut rng));
+                let v = Visitor::Masked(if i % 16 == 4 { let mut k = K::random(&mut rng); k.overlay_per(&mut rng, &s.shape); rep.count("masks.per_member"); k } else { K::random(&mut rng) });
                 rep.eval(); rep.count("reads.in_stream");
                 let probs = problems_of_read(&stream, a, b, &v, s);
                 let alone = |t: &K| problems_of_read(&s.bytes, 0, s.bytes.len() as u64, &Visitor::Masked(t.clone()), s);
@@ -498,10 +601,84 @@ fn miri_slice(seed: u64, cases: usize, max_s: u64) -> i32 {
         i += 1;
     }
     for v in rep.violations.values() { println!("SLICE-OBSERVATION {} ({}x)", v.signature, v.count); }
-    println!("MIRI-SLICE done cases={} (asked for {}) evaluations={} observations={} classes={} bytes_in={} skipped={} masked_reads={} (ok {}) masked_replays={} (ok {}) simple_reads={} simple_replays={} unit_reads={} replays_into_builder={} (equal {}) stream_reads={} vec_visitor_streams={} (ok {})",
+    println!("MIRI-SLICE done cases={} (asked for {}) evaluations={} observations={} classes={} bytes_in={} skipped={} masked_reads={} (ok {}) masked_replays={} (ok {}) simple_reads={} simple_replays={} unit_reads={} replays_into_builder={} (equal {}) stream_reads={} vec_visitor_streams={} (ok {}) per_member_masks={}",
         i, cases, rep.evaluations, rep.violations.len(), classes, bytes_in, skipped, rep.get("reads.masked"), rep.get("reads.masked.ok"), rep.get("replays.masked"), rep.get("replays.masked.ok"), rep.get("reads.simple"), rep.get("replays.simple"), rep.get("reads.unit"),
-        rep.get("replays.into_builder"), rep.get("replays.into_builder.equal"), rep.get("reads.in_stream"), rep.get("streams.vec_visitor"), rep.get("streams.vec_visitor.ok"));
+        rep.get("replays.into_builder"), rep.get("replays.into_builder.equal"), rep.get("reads.in_stream"), rep.get("streams.vec_visitor"), rep.get("streams.vec_visitor.ok"), rep.get("masks.per_member"));
     0
+}
+
+/// Canaries for per-member masks (they use F and hand-made observations only, nothing of the reader): member 1 of a list declares no
+/// interest, member 2 full interest (K_true). (1) Receiving everything is fine. (2) An observation in which member 2 was filtered with
+/// member 1's mask (its items of that level are missing) must be flagged as "item of interest missing", and (3) must NOT be flagged
+/// when judged against the mask that really has member 2 at no interest. (4) The trigger minimiser names the per-member category when
+/// the problem needs two different answers, and falls back to the constant-mask name when one member's mask alone explains it.
+fn per_member_canaries() {
+    let fail = |what: String| -> ! { eprintln!("HARNESS-ERROR canary (per-member masks): {what}"); std::process::exit(3) };
+    let mut rng = Rng::new(12);
+    let mut kept: Vec<Subject> = vec![];
+    let mut found: Vec<Option<usize>> = vec![None, None, None, None];
+    let wanted = |level: Level, m: &Class| -> bool {
+        let second = |i: usize| BITS[i].0 == level && member_has(m, 1, i);
+        match level {
+            Level::Code => m.methods.len() >= 2 && m.methods[0].code.is_some() && (0..NBITS).any(second),
+            _ => (0..NBITS).any(|i| second(i) && BITS[i].1 != "code"),
+        }
+    };
+    for i in 0..600u64 {
+        if found.iter().all(|f| f.is_some()) { break; }
+        if let Ok(s) = gen_subject(&mut rng, i, false) {
+            let fits: Vec<usize> = (0..4).filter(|j| found[*j].is_none() && wanted(MEMBER_LEVELS[*j], &s.full) && wanted(MEMBER_LEVELS[*j], &s.model)).collect();
+            if !fits.is_empty() { for j in fits { found[j] = Some(kept.len()); } kept.push(s); }
+        }
+    }
+    for (j, level) in MEMBER_LEVELS.iter().enumerate() {
+        let Some(s) = found[j].map(|x| &kept[x]) else { fail(format!("no generated class with an item in the second member at level {}", level.name())) };
+        let f = &s.full;
+        let lv = |v: bool| -> mask::Bits { let mut b = [false; NBITS]; for i in 0..NBITS { if BITS[i].0 == *level { b[i] = v; } } b };
+        let with = |list: Vec<Option<mask::Bits>>| -> K { let mut k = K::all(); match level { Level::Field => k.per_field = list, Level::Method => k.per_method = list, Level::Code => k.per_code = list, _ => k.per_record = list } k };
+        let k_true = with(vec![Some(lv(false)), Some(lv(true))]);
+        let k_both_off = with(vec![Some(lv(false)), Some(lv(false))]);
+        // (1) everything received: member 1 got more than it asked for, which is not judged; member 2 got what it asked for
+        let p = judge(f, &k_true, &full_obs(f));
+        if !p.is_empty() { fail(format!("{}: the complete observation is judged wrong under [off, on]: {}", level.name(), p[0].key)); }
+        // (2) member 2 filtered with member 1's mask
+        let mut filtered = f.clone();
+        match level {
+            Level::Field => { let x = &mut filtered.fields[1]; x.constant_value = None; x.signature = None; x.vis_annotations.clear(); x.invis_annotations.clear(); x.vis_type_annotations.clear(); x.invis_type_annotations.clear(); x.unknown.clear(); }
+            Level::Method => { let x = &mut filtered.methods[1]; x.exceptions = None; x.signature = None; x.vis_annotations.clear(); x.invis_annotations.clear(); x.vis_type_annotations.clear(); x.invis_type_annotations.clear(); x.annotation_default = None; x.method_parameters = None; x.unknown.clear(); x.code = None; }
+            Level::Code => { if let Some(c) = filtered.methods[1].code.as_mut() { c.frames = None; c.line_numbers = None; c.lvt = None; c.lvtt = None; c.vis_type_annotations.clear(); c.invis_type_annotations.clear(); c.unknown.clear(); } }
+            _ => { if let Some(x) = filtered.record.as_mut().and_then(|r| r.get_mut(1)) { x.signature = None; x.vis_annotations.clear(); x.invis_annotations.clear(); x.vis_type_annotations.clear(); x.invis_type_annotations.clear(); x.unknown.clear(); } }
+        }
+        let mut wrong = full_obs(f); wrong.built = vec![filtered];
+        if *level == Level::Method { wrong.offered.code.retain(|c| c.0 != 1); }
+        let keys: Vec<String> = judge(f, &k_true, &wrong).into_iter().map(|p| p.key).collect();
+        let path = match level { Level::Field => ".fields[]", Level::Method => ".methods[]", Level::Code => ".code", _ => ".record" };
+        if !keys.iter().any(|k| k.contains("item of interest missing") && k.contains(path)) && !(*level == Level::Method && keys.iter().any(|k| k.starts_with("Code of interest offered never")))
+            { fail(format!("{}: member 2 filtered with member 1's mask is not flagged: {keys:?}", level.name())); }
+        // (3) the same observation is right for the visitor whose member 2 really declared no interest
+        let p = judge(f, &k_both_off, &wrong);
+        if !p.is_empty() { fail(format!("{}: correct observation under [off, off] judged wrong: {}", level.name(), p[0].key)); }
+        // (4) trigger naming
+        let want = format!("per-member {} interests", if *level == Level::Record { "record component" } else { level.name() });
+        let mut noisy = k_true.clone(); noisy.fields = Pat::Last; noisy.bits[bit(Level::Class, "source_file")] = false;
+        let (t, _) = trigger(&noisy, &s.shape, &|k: &K| k.differ_at(*level, 0, 1));
+        if t != want { fail(format!("trigger minimisation gives {t:?}, expected {want:?}")); }
+        // a decline that only shifts the fault: the plainest per-member visitor shows it as well, the decline is not named
+        let mut shifted = k_true.clone(); shifted.methods = Pat::Last; shifted.records = Pat::First;
+        let (t, mk) = trigger(&shifted, &s.shape, &|k: &K| k.differ_at(*level, 0, 1) && (k.methods != Pat::None || k.records == Pat::None));
+        if mk.methods != Pat::None { fail("the probe step of the trigger minimisation was not taken".into()); }
+        if t != want { fail(format!("trigger minimisation gives {t:?}, expected {want:?}")); }
+        let i0 = (0..NBITS).find(|i| BITS[*i].0 == *level).unwrap_or(0);
+        let mut one = K::all(); let mut b = lv(true); b[i0] = false; match level { Level::Field => one.per_field = vec![None, Some(b)], Level::Method => one.per_method = vec![None, Some(b)], Level::Code => one.per_code = vec![None, Some(b)], _ => one.per_record = vec![None, Some(b)] }
+        let (t, _) = trigger(&one, &s.shape, &|k: &K| (0..4).any(|o| !k.bit_at(o, i0)));
+        if t != format!("interest {} off", bit_name(i0)) { fail(format!("trigger minimisation of a constant-mask problem under per-member masks gives {t:?}")); }
+    }
+    // the masks really reach the visitors: K -> duke Mask -> what the visitor of member j answers (to_mask fills the override lists)
+    let mut k = K::all(); let mut b = [false; NBITS]; b[bit(Level::Method, "signature")] = true; k.per_method = vec![None, Some(b)]; let mut c = [false; NBITS]; c[bit(Level::Code, "line_number_table")] = true; k.per_code = vec![Some(c)];
+    let m = k.to_mask(2, 2, 0);
+    let ok = m.method_overrides.len() == 2 && m.method_overrides[0].is_none() && m.method_overrides[1].as_ref().is_some_and(|x| x.signature && !x.code && !x.exceptions)
+        && m.code_overrides.len() == 1 && m.code_overrides[0].as_ref().is_some_and(|x| x.line_number_table && !x.stack_map_table) && m.field_overrides.is_empty() && m.method.exceptions;
+    if !ok { fail("K::to_mask does not carry the per-member masks".into()); }
 }
 
 fn main() {
@@ -537,11 +714,12 @@ fn main() {
         let keys: Vec<String> = judge(&wrong, &none, &obs_all).into_iter().map(|p| p.key).collect();
         if !keys.iter().any(|k| k.contains("received item") && k.contains("source_file")) || !keys.iter().any(|k| k.starts_with("fields offered")) { eprintln!("HARNESS-ERROR canary: foreign items not flagged: {keys:?}"); std::process::exit(3); }
         // (d) trigger minimisation names the single deviation that matters
-        let (t, _) = trigger(&a, &|k: &K| !k.on(Level::Code, "line_number_table"));
+        let (t, _) = trigger(&a, &s.shape, &|k: &K| !k.on(Level::Code, "line_number_table"));
         if t != "interest code.line_number_table off" { eprintln!("HARNESS-ERROR canary: trigger minimisation gives {t:?}"); std::process::exit(3); }
+        per_member_canaries();
     }
 
-    let sizes = ctx.tier.pick((6, 6, 14), (8, 8, 28));
+    let sizes = ctx.tier.pick((6, 6, 12, 6), (8, 8, 24, 8));
     // ---- workload 1: javac corpus x masks (more masks per class: few classes)
     let corpus = cf::corpus::load(&ctx.verif_dir);
     let rounds = ctx.tier.pick(2u64, 12u64);
@@ -567,7 +745,7 @@ fn main() {
         // (a) a different fresh visitor for every read; every read starts where the previous class ends
         let mut kinds = vec![];
         for (j, s) in subjects.iter().enumerate() {
-            let v = match rng.below(10) { 0 => Visitor::Unit, 1 => Visitor::Full, 2 => { let mut k = K::random(rng); k.decline_class = true; Visitor::Masked(k) } 3 => Visitor::Masked(K::none()), 4 | 5 => { let mut k = K::random(rng); k.records = Pat::None; Visitor::Simple(k) } _ => Visitor::Masked(K::random(rng)) };
+            let v = match rng.below(10) { 0 => Visitor::Unit, 1 => Visitor::Full, 2 => { let mut k = K::random(rng); k.decline_class = true; Visitor::Masked(k) } 3 => Visitor::Masked(K::none()), 4 | 5 => { let mut k = K::random_pm(rng, &s.shape); k.records = Pat::None; k.per_field.clear(); k.per_record.clear(); Visitor::Simple(k) } _ => Visitor::Masked(K::random_pm(rng, &s.shape)) };
             kinds.push(v.name());
             rep.eval(); rep.count("reads.in_stream"); rep.count("position.checked"); if j > 0 { rep.count("reads.in_stream.not_first"); }
             let (a, b) = bounds[j];
@@ -616,7 +794,7 @@ fn main() {
         }
     });
 
-    let mut meta = Meta::new("exploration", "generated dense classes (cf::gen + c17 densify: most attribute kinds at class / field / method / Code / record-component level, 0-7 members, versions 45-67, module descriptors) under canonical and random layouts, the javac corpus, and streams of 2-6 concatenated classes; every class is read and replayed under all/none/single-flag-off/single-flag-on/random interest masks and none/all/first/last/every-k-th/random decline patterns for fields, methods, record components, Code and the class; further visitors: (), a harness-defined SimpleClassVisitor with harness-defined masked method/code visitors, Vec<ClassFile>. A case is non-trivial if a partial mask or a decline met a class with members (or a module); distinct = feature-set fingerprint of the class per workload (streams: tuple of fingerprints)")
+    let mut meta = Meta::new("exploration", "generated dense classes (cf::gen + c17 densify: most attribute kinds at class / field / method / Code / record-component level, 0-7 members, versions 45-67, module descriptors) under canonical and random layouts, the javac corpus, and streams of 2-6 concatenated classes; every class is read and replayed under all/none/single-flag-off/single-flag-on/random interest masks and none/all/first/last/every-k-th/random decline patterns for fields, methods, record components, Code and the class; in about one third of the masks the members of one class answer interests() differently (per-member masks for fields, methods, Code, record components: only first / last / k-th, alternating, nothing and everything in turn, all different, first nothing and later everything and the reverse; combined with the decline patterns and visit_code -> None for the first method), every member judged against its own mask; further visitors: (), a harness-defined SimpleClassVisitor with harness-defined masked method/code visitors (per method as well), Vec<ClassFile>. A case is non-trivial if a partial mask or a decline met a class with members (or a module); distinct = feature-set fingerprint of the class per workload (streams: tuple of fingerprints)")
         .assume("F (the full read) is the reference: whether F itself is right is C01's business; classes on which the full read fails are skipped and counted")
         .assume("the masked visitors forward what they accept unchanged to duke's own tree builders, so the built tree records exactly what was received (duke::verif::Masked inside duke; the SimpleClassVisitor probe outside)")
         .assume("presence of an item (for the coverage obligations) is taken from the independent parser's model of the same bytes");
@@ -629,6 +807,20 @@ fn main() {
         for who in ["read", "replay"] { for kind in ["field", "method", "record_component"] { for p in ["all", "first", "last", "every_kth", "random", "accepted_after_declined"] { let key = format!("decline.{who}.{kind}.{p}"); if rep.get(&key) == 0 { missing.push(key); } } } }
         for key in ["decline.read.class", "decline.replay.class", "decline.read.code.first", "decline.read.code.all", "decline.simple.field.first", "decline.simple.method.last", "decline.stream.method.random"] { if rep.get(key) == 0 { missing.push(key.to_string()); } }
         meta.oblige(format!("every decline pattern executed for fields, methods and record components, on read and on replay, with an accepted member after a declined one (missing: {missing:?})"), missing.is_empty());
+        // per-member masks: for every member level, on read and on replay, classes where a later member declares interest in an item it has and
+        // an earlier member of the same list (the first one that gets there / the one just before) declared none; the same with the first member
+        // declined, and with visit_code -> None for the first method
+        let mut missing = vec![];
+        for who in ["read", "replay"] {
+            for level in ["field", "method", "code", "record"] { for (what, least) in [("later_wants_more_than_first", PM_MIN), ("wants_more_than_previous", PM_MIN), ("first_declined_later_differ", PM_MIN / 2)] { let key = format!("pm.{who}.{level}.{what}"); if rep.get(&key) < least { missing.push(format!("{key}={}", rep.get(&key))); } } }
+            for key in [format!("pm.{who}.code.first_code_refused_later_differ"), format!("pm.{who}.method.first_code_refused_later_differ")] { if rep.get(&key) < PM_MIN / 2 { missing.push(format!("{key}={}", rep.get(&key))); } }
+            for pat in PER_PATS { let key = format!("pm.{who}.pattern.{}", pat.name()); if rep.get(&key) < PM_MIN { missing.push(format!("{key}={}", rep.get(&key))); } }
+        }
+        for key in ["pm.simple.method.later_wants_more_than_first", "pm.simple.code.later_wants_more_than_first", "pm.simple.method.wants_more_than_previous", "pm.simple.code.wants_more_than_previous",
+            "pm.stream.field.later_wants_more_than_first", "pm.stream.method.later_wants_more_than_first", "pm.stream.code.later_wants_more_than_first"] { if rep.get(key) < PM_MIN_SMALL { missing.push(format!("{key}={}", rep.get(key))); } }
+        meta.oblige(format!("per-member interest masks: for fields, methods, Code and record components, on read and on replay, at least {PM_MIN} evaluations (class x mask) each where a later member declares interest in an item it has and the first / the previous member of the list declared none, at least {} each of these after a declined first member and after visit_code -> None for the first method; every per-member pattern; the harness-defined visitors and the streams likewise (at least {PM_MIN_SMALL}) (short: {missing:?})", PM_MIN / 2), missing.is_empty());
+        let share = (rep.get("pm.read.masks") * 100).checked_div(rep.get("reads.masked")).unwrap_or(0);
+        meta.oblige(format!("about one third of the masked reads use per-member masks ({share}%)"), (25..=50).contains(&share));
         let reads = rep.get("reads.masked") + rep.get("reads.unit") + rep.get("reads.simple") + rep.get("reads.in_stream") + rep.get("streams.vec_visitor.ok") * 0;
         meta.oblige("the position check was executed on every read", rep.get("position.checked") >= reads && reads > 0);
         meta.oblige("reads at a non-zero stream offset were observed (streams of 2..6 classes)", rep.get("reads.in_stream.not_first") >= 100 && (2..=6).all(|k| rep.get(&format!("streams.of_{k}")) > 0));
@@ -647,3 +839,6 @@ fn main() {
 }
 /// cases asked of the Miri slice in the thorough tier; it stops by itself after 150 s, checked between cases: one `evaluate_class` case can take 60 s (see NOTES.md)
 const MIRI_CASES: usize = 16;
+/// minimum number of evaluations (class x mask) per per-member coverage region (read / replay); the harness-defined visitors and the streams see fewer masks
+const PM_MIN: u64 = 10;
+const PM_MIN_SMALL: u64 = 3;
